@@ -578,6 +578,14 @@ RULES = {
                 "unsafe { String :: from_utf8_unchecked ( $v ) }", "__from_utf8_unchecked ( $v )"),
     "R12d": Rule("R12d", "V.iter().any(|&b| b >= X) -> __any_ge(V, X)",
                  "$v . iter ( ) . any ( | & $b | $b >= $$x )", "__any_ge ( $v , $$x )"),
+    # zip of a mutable and a shared slice iterator with a by-value pattern on the shared side -> index loop over the
+    # common prefix (definition of Zip<IterMut, Iter>: stops at the shorter operand)
+    "R10z": Rule("R10z", "for (a, &b) in A.iter_mut().zip(B.iter()) { BODY } -> index loop over min(len A, len B)",
+                 "for ( $a , & $b ) in $$x . iter_mut ( ) . zip ( $$y . iter ( ) ) { $$body }",
+                 "{ let mut i__ = 0 ; let n__ = Ord :: min ( $$x . len ( ) , $$y . len ( ) ) ; while i__ < n__ { let $a = & mut $$x . as_mut_slice ( ) [ i__ ] ; let $b = $$y [ i__ ] ; i__ += 1 ; $$body } }"),
+    "R12e": Rule("R12e", "V.extend(E.iter().cloned()) -> V.extend_from_slice(E)  (std: equivalent for Clone elements)",
+                 "$$v . extend ( $e . iter ( ) . cloned ( ) )", "$$v . extend_from_slice ( $e )",
+                 guard=lambda e: e["$$v"] and all(t not in (";", "=", "{", "}", ",") for t in e["$$v"])),
     "R4b": Rule("R4b", "for (a, &b) in I { S } -> for (a, b_r__) in I { let b = *b_r__; S }",
                 "for ( $a , & $b ) in $$i { $$s }",
                 "for ( $a , b_r__ ) in $$i { let $b = * b_r__ ; $$s }"),
